@@ -393,10 +393,17 @@ fn run(
         let is_last = i + 1 == total;
         // C05 looks at the dump around the last step when it is a compaction
         let mut before = None;
+        let mut levels_before = None;
         if is_last && plan.prop == "C05" && matches!(op, Op::Compact | Op::CompactAll) {
-            before = Some((st.dump_tree(), st.level15_setsums()));
+            before = Some((st.dump_tree(), st.n_steps_rewriting_oldest_level));
+            if matches!(op, Op::Compact) {
+                levels_before = Some(st.tree().verif_levels());
+            }
         }
         let r = st.apply(op);
+        if let (Some(lb), StepResult::Ok) = (&levels_before, &r) {
+            closure_heuristic(lb, &st.tree().verif_levels(), cfg, seed, ops);
+        }
         if std::env::var("VERIF_TRACE").is_ok() {
             let what = match &r {
                 StepResult::Ok => "ok".to_string(),
@@ -449,7 +456,7 @@ fn run(
                 if let Some((Ok(b), l15b)) = before {
                     match st.dump_tree() {
                         Ok(a) => {
-                            let l15a = st.level15_setsums();
+                            let l15a = st.n_steps_rewriting_oldest_level;
                             if dedupe {
                                 use std::sync::atomic::Ordering::Relaxed;
                                 COMPACTION_STEPS_CHECKED.fetch_add(1, Relaxed);
@@ -674,6 +681,47 @@ fn explore(
     }
 }
 
+static CLOSURE_SUSPECTS: std::sync::atomic::AtomicU64 = std::sync::atomic::AtomicU64::new(0);
+static CLOSURE_EXAMPLES: std::sync::Mutex<Vec<String>> = std::sync::Mutex::new(Vec::new());
+
+/// Search heuristic, not an oracle: a compaction step whose inputs are not closed under "a file
+/// of a deeper level (up to the output level) whose key range overlaps an input is an input too"
+/// moves data below a file it may shadow.  Whether that is a wrong read depends on the keys the
+/// files really share, which the read oracles decide; this only counts and samples such steps.
+fn closure_heuristic(before: &[Vec<sst::SstMetadata>], after: &[Vec<sst::SstMetadata>], cfg: &Cfg, seed: &[Op], ops: &[Op]) {
+    use std::collections::BTreeSet;
+    let place = |ls: &[Vec<sst::SstMetadata>]| -> BTreeSet<(usize, [u8; 32])> {
+        ls.iter().enumerate().flat_map(|(i, l)| l.iter().map(move |m| (i, m.setsum))).collect()
+    };
+    let (pb, pa) = (place(before), place(after));
+    let gone: Vec<(usize, [u8; 32])> = pb.difference(&pa).cloned().collect();
+    let new: Vec<(usize, [u8; 32])> = pa.difference(&pb).cloned().collect();
+    let Some(out_level) = new.iter().map(|x| x.0).max() else { return };
+    let is_input = |l: usize, s: &[u8; 32]| gone.contains(&(l, *s));
+    for (i, level) in before.iter().enumerate() {
+        for a in level.iter().filter(|m| is_input(i, &m.setsum)) {
+            for (j, deeper) in before.iter().enumerate().skip(i + 1).take(out_level.saturating_sub(i)) {
+                for b in deeper.iter() {
+                    if b.first_key <= a.last_key && a.first_key <= b.last_key && !is_input(j, &b.setsum) {
+                        CLOSURE_SUSPECTS.fetch_add(1, std::sync::atomic::Ordering::Relaxed);
+                        let mut ex = CLOSURE_EXAMPLES.lock().unwrap();
+                        if ex.len() < 5 {
+                            let mut all: Vec<Op> = seed.to_vec();
+                            all.extend(ops.iter().cloned());
+                            ex.push(format!(
+                                "cfg {}: input L{i} [{}..{}] sinks to L{out_level} past non-input L{j} [{}..{}]; history {:?}",
+                                cfg.name,
+                                vcore::esc(&a.first_key), vcore::esc(&a.last_key), vcore::esc(&b.first_key), vcore::esc(&b.last_key),
+                                all.iter().map(|o| o.name()).collect::<Vec<_>>()
+                            ));
+                        }
+                    }
+                }
+            }
+        }
+    }
+}
+
 /// Greedy delta-debugging: drop operations while the same signature is still reported.
 fn minimise(
     plan: &Plan,
@@ -893,6 +941,10 @@ fn main() {
             total.count("compaction_steps_checked", COMPACTION_STEPS_CHECKED.load(Relaxed));
             total.count("steps_that_rewrote_the_oldest_level", GC_STEPS.load(Relaxed));
             total.count("gc_steps_that_dropped_entries", GC_STEPS_DROPPING.load(Relaxed));
+            total.count("heuristic_compactions_sinking_past_an_overlapping_file", CLOSURE_SUSPECTS.load(Relaxed));
+            for e in CLOSURE_EXAMPLES.lock().unwrap().iter() {
+                eprintln!("closure heuristic: {e}");
+            }
         }
     }
     total.bound = json!({
